@@ -1,15 +1,29 @@
 """C01 - see properties.jsonl; DESIGN.md section 5."""
 from ._generic import run_property
 
-EXPLANATION = 'Bounded stand-in (labelled bounded, nothing proved yet for this property): round-trip contract attached to the real fastparquet.write / ParquetFile.to_pandas over an enumerated dtype x rows x null-pattern x pairwise option space; oracle is the input frame under the documented canonicalisations only.'
+EXPLANATION = 'Mixed. P (discharged for ALL sizes from the real source): skip_definition_bytes advances exactly over the no-null definition block the writer emits (every page size < 2**31), check_32 returns only values fitting i32, the dictionary-index fast path takes at least the indices encode_dict wrote. B (labelled bounded, never counted as proved): round-trip contract attached to the real fastparquet.write / ParquetFile.to_pandas over an enumerated dtype x rows x null-pattern x pairwise option space; oracle is the input frame under the documented canonicalisations only.'
+
+
+def p_arith(ctx):
+    from contracts import py_arith
+    from vlib.common import REFUTED
+    res = py_arith.check(ctx, 10000 if ctx.tier == "quick" else 60000)
+    for name in res.order:
+        st = res.status(name)
+        e = res.d[name][0]
+        ctx.obligation(name, "core/writer (integer lemmas)", st, e[3], sum(x[2] for x in res.d[name]), detail=e[4],
+                       model=e[1] if st == REFUTED else None, sample=True)
+        if st == REFUTED:
+            ctx.violation(name, {"function": name.split(".")[0], "model": e[1], "solver_output": str(e[1]),
+                                 "snippet": None}, False, what=str(e[1])[:300])
 
 
 def p_parts():
-    return []
+    return [p_arith]
 
 
 def run(ctx):
-    return run_property(ctx, 'exploration', EXPLANATION, p_parts=p_parts(), b_modules=['c01_roundtrip'],
+    return run_property(ctx, 'other', EXPLANATION, p_parts=p_parts(), b_modules=['c01_roundtrip'],
                         assumptions=["pandas / numpy / cramjam behaviour inside every opaque value",
                                      "the oracle (plain pandas / the spec library under /verif/spec) is a faithful reading of the property"],
                         trusted=["bounded layer: enumerated inputs only; nothing outside the stated bound is covered"])
